@@ -324,3 +324,81 @@ def lattice_points_on_edges(vs, limit=40):
             if len(out) >= limit:
                 return out
     return out
+
+
+def simple_polygons(points, n, first=None, canonical=False):
+    """Every sequence of n distinct points (optionally starting with ``first``,
+    optionally only those whose first vertex is their smallest one) that is a
+    simple polygon.  Depth first with pruning; the result set equals
+    ``[s for s in permutations(points, n) if is_simple_polygon(s)]`` (the check
+    asserts this on a sample)."""
+    points = [tuple(p) for p in points]
+
+    def ok_new_edge(chain, c):
+        """may the open chain be extended by edge chain[-1] -> c ?"""
+        b = chain[-1]
+        if len(chain) >= 2:
+            a = chain[-2]
+            if cross(a, b, c) == 0 and (b[0] - a[0]) * (c[0] - b[0]) + (b[1] - a[1]) * (c[1] - b[1]) < 0:
+                return False
+        for i in range(len(chain) - 2):
+            if segments_touch(chain[i], chain[i + 1], b, c):
+                return False
+        return True
+
+    def closes(chain):
+        a, b, c0, c1 = chain[-2], chain[-1], chain[0], chain[1]
+        # closing edge b -> c0 against all edges except its two neighbours
+        for i in range(1, len(chain) - 2):
+            if segments_touch(chain[i], chain[i + 1], b, c0):
+                return False
+        if cross(a, b, c0) == 0 and (b[0] - a[0]) * (c0[0] - b[0]) + (b[1] - a[1]) * (c0[1] - b[1]) < 0:
+            return False
+        if cross(b, c0, c1) == 0 and (c0[0] - b[0]) * (c1[0] - c0[0]) + (c0[1] - b[1]) * (c1[1] - c0[1]) < 0:
+            return False
+        return True
+
+    def rec(chain, used):
+        if len(chain) == n:
+            if closes(chain):
+                yield tuple(chain)
+            return
+        for p in points:
+            if p in used:
+                continue
+            if canonical and p < chain[0]:
+                continue
+            if ok_new_edge(chain, p):
+                used.add(p)
+                chain.append(p)
+                for s in rec(chain, used):
+                    yield s
+                chain.pop()
+                used.discard(p)
+
+    starts = [tuple(first)] if first is not None else points
+    for s in starts:
+        for poly in rec([s], {s}):
+            yield poly
+
+
+def untangled_polygon(rng, pts, max_rounds=200):
+    """Random simple polygon through all the given points by 2-opt untangling
+    of a random tour (may return None when it does not converge or points are
+    degenerate); callers re-verify with is_simple_polygon."""
+    tour = list(pts)
+    rng.shuffle(tour)
+    n = len(tour)
+    for _ in range(max_rounds):
+        changed = False
+        for i in range(n):
+            for j in range(i + 2, n):
+                if i == 0 and j == n - 1:
+                    continue
+                a, b, c, d = tour[i], tour[(i + 1) % n], tour[j], tour[(j + 1) % n]
+                if segments_touch(a, b, c, d):
+                    tour[i + 1:j + 1] = reversed(tour[i + 1:j + 1])
+                    changed = True
+        if not changed:
+            break
+    return tour if is_simple_polygon(tour) else None
